@@ -3,14 +3,15 @@
 # change applied.  /repo itself is not touched (VERIF_REPO points the build at the copy), so this can run while other
 # checks use /repo; it has its own build cache.  Output: /tmp/mut_<name>_<id>.log
 NAME=$1; shift
-export VERIF_SCRATCH=/tmp/verif-mut
-export VERIF_REPLAYS=/tmp/verif-mut-replays
-export VERIF_REPO=/tmp/verif-mut-repo
+# (MUT_TAG: a second series of trials next to the first one needs its own copy and build cache)
+export VERIF_SCRATCH=/tmp/verif-mut${MUT_TAG}
+export VERIF_REPLAYS=/tmp/verif-mut${MUT_TAG}-replays
+export VERIF_REPO=/tmp/verif-mut${MUT_TAG}-repo
 cd /verif
 mkdir -p $VERIF_REPO
 rsync -a --delete --exclude .git --exclude _build /repo/ $VERIF_REPO/
 ( cd $VERIF_REPO && patch -p1 -s < /verif/seeded/$NAME/patch.diff ) || { echo "patch does not apply"; exit 2; }
 for id in "$@"; do
-  python3 tools/check.py $id --tier quick > /tmp/mut_${NAME}_$id.log 2>&1
-  echo "$NAME $id exit=$? $(grep -c '^VIOLATION' /tmp/mut_${NAME}_$id.log) violations; $(grep 'signature' /tmp/mut_${NAME}_$id.log | sort | uniq -c | head -3 | tr '\n' ' ')"
+  python3 tools/check.py $id --tier quick > /tmp/mut${MUT_TAG}_${NAME}_$id.log 2>&1
+  echo "$NAME $id exit=$? $(grep -c '^VIOLATION' /tmp/mut${MUT_TAG}_${NAME}_$id.log) violations; $(grep 'signature' /tmp/mut${MUT_TAG}_${NAME}_$id.log | sort | uniq -c | head -3 | tr '\n' ' ')"
 done
